@@ -5,6 +5,7 @@ open BsVerif BsVerif.Proto BsVerif.Bp Driver.C01
 
 structure St where
   s : Bp.St := { τ := [], code := fun _ => 0 }
+  afterFault : Bool := false   -- a command ran with an injected ptrace failure: the model has no failure points
 
 def showSOut (o : SOut) (s : Bp.St) : String :=
   match o with
@@ -16,10 +17,7 @@ def run (st : St) (op : SOp) : St × String :=
   let (s, o) := execS st.s op
   ({ s := s }, showSOut o s)
 
-def step (st : St) : List String → St × String
-  | "new" :: rest =>
-    let (c1, out) := Driver.C01.step {} ("new" :: rest)
-    ({ s := c1.s }, out)
+def stepLive (st : St) : List String → St × String
   | ["break", a] => match hexNat? a with
     | some a => run st (.base (.brk a))
     | none => (st, "bad-op")
@@ -44,5 +42,13 @@ def step (st : St) : List String → St × String
     | some t, some k => if _cmd == "next" || _cmd == "finish" then run st (.tempRun t k) else (st, "bad-op")
     | _, _ => (st, "bad-op")
   | _ => (st, "bad-op")
+
+def step (st : St) : List String → St × String
+  | "new" :: rest =>
+    let (c1, out) := Driver.C01.step {} ("new" :: rest)
+    ({ s := c1.s }, out)
+  | "fault" :: _ => (st, "ok")
+  | "faulted" :: _ => ({ st with afterFault := true }, "faulted")
+  | toks => if st.afterFault then (st, "after-fault") else stepLive st toks
 
 end Driver.C02
